@@ -14,17 +14,17 @@ type counter struct{ n int }
 func (c *counter) Inc() { c.n++ }
 
 type LruOpJ struct {
-	Regrow bool `json:"regrow,omitempty"` // Put again the SAME bitmap object last stored under the key, after adding values to it
-	Get  bool   `json:"get,omitempty"`
-	Key  uint64 `json:"key"`
-	Size int    `json:"size_class,omitempty"` // index into the bitmap size classes
+	Regrow bool   `json:"regrow,omitempty"` // Put again the SAME bitmap object last stored under the key, after adding values to it
+	Get    bool   `json:"get,omitempty"`
+	Key    uint64 `json:"key"`
+	Size   int    `json:"size_class,omitempty"` // index into the bitmap size classes
 }
 
 type LruCase struct {
-	LateMetrics bool `json:"late_metrics,omitempty"` // counters set via the caller's *CacheMetrics after NewLRUCache
-	Metrics int  `json:"metrics,omitempty"` // bit mask of configured counters: 1 hit, 2 miss, 4 get, 8 put; 0 = all
-	Max uint64   `json:"max"`
-	Ops []LruOpJ `json:"ops"`
+	LateMetrics bool     `json:"late_metrics,omitempty"` // counters set via the caller's *CacheMetrics after NewLRUCache
+	Metrics     int      `json:"metrics,omitempty"`      // bit mask of configured counters: 1 hit, 2 miss, 4 get, 8 put; 0 = all
+	Max         uint64   `json:"max"`
+	Ops         []LruOpJ `json:"ops"`
 }
 
 // bitmaps of various in-memory sizes (GetSizeInBytes): empty, tiny array, arrays, a bitmap container, many containers
